@@ -375,10 +375,12 @@ DIdx0P  == <<37, 46, 91, 48, 93, 42, 100>>                  \* %.[0]*d
 DIdx10  == <<37, 91, 49, 93, 100, 32, 37, 91, 48, 93, 118>> \* %[1]d %[0]v
 DIdxSP  == <<37, 91, 49, 93, 42, 46, 50, 118>>              \* %[1]*.2v
 \* (<<>>: the empty format -- every operand is surplus)
-DirFormats == {DStar, DmStar, DpStar, DIdx21, DIdx3, DIdxW, DTwo, DThree, DNoVerb, DBang, DPct, Fv, <<A>>, <<>>, FZ \o Fv,
+DPrec2s == <<37, 46, 50, 115>>   DPrec3v == <<37, 46, 51, 118>>       \* %.2s %.3v
+DirFormats == {DPrec2s, DPrec3v, DStar, DmStar, DpStar, DIdx21, DIdx3, DIdxW, DTwo, DThree, DNoVerb, DBang, DPct, Fv, <<A>>, <<>>, FZ \o Fv,
                DIdx0, DIdx0S, DIdx0P, DIdx10, DIdxSP}
-DirOperands == {UStr(10), UInt(10), SafeStr(10), SVObj(10), TNil(10), StObj(10), TInt(10, 6), TInt(10, -4), SafeInt(10), TRValue(10, UInt(11)), TUnsafe(10, UInt(11))}
-DirOperands2 == {UStr(20), TInt(20, 5), SafeStr(20), TNil(20), RegObj(20)}
+DirOperands == {UStr(10), UInt(10), SafeStr(10), SVObj(10), TNil(10), StObj(10), TInt(10, 6), TInt(10, -4), SafeInt(10), TRValue(10, UInt(11)), TUnsafe(10, UInt(11)),
+                TSStr(10, P(10))}      \* a SafeString under widths and precisions (it is a string like any other to the directive)
+DirOperands2 == {UStr(20), TInt(20, 5), SafeStr(20), TNil(20), RegObj(20), TSStr(20, P(20))}
 DirRoots == DirFormats
 \* (objects are named int types in the harness, so '*' would read their handle as a width: kept out of star formats)
 DirOK(f, t) == ~(Contains(f, Star) /\ t.k = "obj")
